@@ -3,6 +3,7 @@
   hash-linking and the selection loop.  Used by Props/C06, C12, C13.
 -/
 import Core.Machine
+import Core.Lemmas.AddBlock
 open Std
 
 namespace Ru
@@ -858,12 +859,8 @@ open Ledger in
 theorem addBlock_ok {env : Env} {l l' : Ledger} {ts : Int} {txs : List Tx} {na : List String}
     (h : l.addBlock env ts txs na = .ok l') :
     ∃ b, l'.blocks = l.blocks ++ [b] ∧ b.prevHash = tipHash env zeroHash l.blocks ∧ b.ts = ts ∧ b.txs = txs := by
-  unfold addBlock at h
-  split at h
-  · cases h
-  · rename_i c hc
-    cases h
-    have hb := confirmLast_blocks hc
+  obtain ⟨_, c, hc, rfl⟩ := addBlock_inv h
+  · have hb := confirmLast_blocks hc
     refine ⟨mkBlock env l c ts txs na, by simp [hb], ?_, rfl, rfl⟩
     simp only [mkBlock, prevHashOf, tipHash, hb]
     rfl
